@@ -759,14 +759,13 @@ func (s *syncer) cleanupBisyncNamespace(cli client.Redis, checkpointName string,
 
 	// Deterministic per-slot keys can be reconstructed directly from
 	// checkpointName + slotTag, so we do not need to scan Redis keyspace.
-	slotKeys := make([]string, 0, len(recoverySlots)*3)
+	slotKeys := make([]string, 0, len(recoverySlots)*2)
+	markerKeys := make([]string, 0, len(recoverySlots))
 	indexKeys := make([]string, 0, len(recoverySlots))
 	for _, slot := range recoverySlots {
 		slotTag := checkpoint.BisyncSlotTag(slot)
-		slotKeys = append(slotKeys,
-			checkpoint.BisyncMarkerKey(checkpointName, slotTag),
-			checkpoint.BisyncLatestCheckpointKey(checkpointName, slotTag),
-		)
+		markerKeys = append(markerKeys, checkpoint.BisyncMarkerKey(checkpointName, slotTag))
+		slotKeys = append(slotKeys, checkpoint.BisyncLatestCheckpointKey(checkpointName, slotTag))
 		indexKey := checkpoint.BisyncCommitIndexKey(checkpointName, slotTag)
 		slotKeys = append(slotKeys, indexKey)
 		indexKeys = append(indexKeys, indexKey)
@@ -788,6 +787,17 @@ func (s *syncer) cleanupBisyncNamespace(cli client.Redis, checkpointName string,
 	rootKeys := []string{
 		checkpointName,
 		checkpoint.BisyncFrontierKey(checkpointName),
+	}
+	// The marker is the one control key that carries an expiry, and it is deleted
+	// alone, one DEL per marker. Named in a DEL together with other keys, a marker
+	// that has expired but is not reaped yet makes a Redis 7 master propagate
+	// "MULTI, DEL marker, DEL marker latest index, EXEC" (the lazy expiry ahead of
+	// the command that met it): a transaction on bisync keys that does not start
+	// with the marker SET, which the opposite link rebuilt as a replay unit and sent
+	// back. A single-key DEL propagates as one stand-alone DEL/UNLINK or not at all,
+	// and stand-alone control commands are skipped by the opposite link.
+	if err := checkpoint.DeleteBisyncCommitKeys(cli, markerKeys); err != nil {
+		errs = append(errs, err)
 	}
 	// Per-slot keys are independent from the root checkpoint/frontier keys, so
 	// delete them in separate chunks and aggregate any best-effort cleanup errors.
